@@ -75,11 +75,13 @@ SPEC = {
             "encryption key manager each) for 1-2 leaderships on one embedded etcd, then a random interleaving of campaign "
             "(whole / parked between Grant and transaction, with injected transaction errors, failing Grant, failing Revoke, "
             "extra comparisons), CheckLeader/WatchLeader, keep-alive ticks, local clock readings, server-side lease loss, Reset, DeleteLeaderKey, "
-            "step-down, crash, the six guarded writes, timestamp / IsLeader requests and raw etcd transactions; even streams "
+            "Reset / ResetLeader parked around the Revoke request of lease.Close (before it is sent / after etcd applied it), "
+            "step-down, crash, the six guarded writes, id Alloc, timestamp / IsLeader requests and raw etcd transactions; even streams "
             "are faithful executions (leader-loop call order, monotone clocks, lease loss only after local expiry), odd streams "
             "are malformed (anything at any time); a quarter of the sequences start with the scripted take-over scenario (holder "
             "loses its lease in one of five ways, another contender takes over, the former holder tries every write and "
-            "request); non-trivial = at least one successful campaign and at least one rejected "
+            "request); stream 0 also runs the server-level check serverhb once (region heartbeat on an existing stream right "
+            "after the leader resigned); non-trivial = at least one successful campaign and at least one rejected "
             "campaign or guarded write; distinct = distinct op sequence",
     "model_text": "PdModel/Model/Election.lean: etcd (keys with leases, atomic transactions, lease revocation) + per contender "
                   "lease view / leader value / leader cache / TSO-memory flag; one step per call of Campaign (or its two "
